@@ -6,6 +6,12 @@ interpreter function, on the tracked value of a Pony object in a db_session (SQL
 commit the value is read in a new db_session and must equal the reference; at every 'reload' step inside a program the
 same comparison is made.  Read-only programs must additionally leave `obj._status_` un-modified and emit no UPDATE that
 sets the attribute's column (statements are logged by a sqlite3.Connection/Cursor subclass passed through bind()).
+
+A case may have a second *slot* (the same attribute of another object, the other Json attribute of the same object, or
+both): programs then act on either slot and contain hand-over steps that put a container read from one slot into the
+value of the other (item assignment, append/insert/extend/slice, update/setdefault/|=, whole-attribute assignment).  The
+reference stores a copy on hand-over (an attribute value is a document of its own row), so afterwards every slot must be
+written exactly with the changes made through it, and a step that acts on one object must not mark another object.
 """
 import itertools
 from vlib import runner
@@ -20,7 +26,10 @@ RULE = ('A case is (kind in json/json_lazy/IntArray/StrArray/FloatArray, origin 
         'item/local-name form of += *= |= x origin, every inserting op followed by none/flush/commit/reload and a '
         'mutation inside the inserted container, alias-then-mutate patterns, and every read op x container x origin. '
         'Part 2 is hypothesis-generated documents and programs (ops incl. flush/commit/reload/touch-other-attribute/'
-        'alias/assign/read). Non-trivial: a mutation program in which at least one step changed the reference value and '
+        'alias/assign/read). Both parts also contain two-slot cases (peer = same attribute of another object / other Json '
+        'attribute of the same object / both): grid F enumerates every hand-over form x source container x direction x '
+        'none/flush/commit/touch+flush/reload x change through the receiver or through the source; random programs mix '
+        'hand-overs with all other ops on either slot. Non-trivial: a mutation program in which at least one step changed the reference value and '
         'that step was nested (depth>=1 or via alias) or the program has an augmented operator, an inserted container, an '
         'alias or a flush/commit/reload; or a read-only program with >=1 read at depth>=1 or >=2 reads. Distinct by hash '
         'of (kind, origin, normalised initial value, resolved concrete steps).')
@@ -28,12 +37,17 @@ ASSUMPTIONS = ['Python dict/list semantics on a deep copy are the reference (doc
                'creates shared children and never passes a part of the document back in as an argument)',
                'SQLite live through pony.orm.dbproviders.sqlite, :memory: database, statement log via sqlite3 factory',
                'dict order after a reload is the sorted-key order the SQLite provider writes (only popitem depends on it)',
-               'obj._status_ is read as a secondary signal for read-only programs']
+               'obj._status_ is read as a secondary signal for read-only programs and for "a step on one object does not mark '
+               'another object"',
+               'a container handed over from one attribute value to another is stored by value (copy) in the reference: two '
+               'rows/attributes cannot share structure; a container is never handed back into the slot it was read from']
 SHARDS = {'quick': 4, 'thorough': 16}
-MIN_EVALS = {'quick': 12000, 'thorough': 60000}
+MIN_EVALS = {'quick': 18000, 'thorough': 70000}
 CLASS_FLOORS = {'readonly': 0.1, 'origin:loaded': 0.25, 'origin:flushed': 0.15, 'kind:array': 0.1,
                 'aug:local': 0.03, 'aug:item': 0.012, 'containers_in_nonlist_iterable': 0.005,
-                'mutated_inserted_container': 0.03, 'via_alias': 0.015, 'session:flush': 0.03, 'session:reload': 0.03}
+                'mutated_inserted_container': 0.03, 'via_alias': 0.015, 'session:flush': 0.03, 'session:reload': 0.03,
+                'handover': 0.05, 'mutated_handed_over': 0.02, 'mutated_handed_over_after_flush': 0.01, 'peer:obj': 0.05,
+                'peer:attr': 0.01, 'peer:both': 0.02}
 
 _ENV = None
 
@@ -141,58 +155,74 @@ def execute(case, res):
                                 % (when, names[k], got, expect[k]))
 
     def segment(first):
-        with db_session:
-            objs = {}
-            for o in okeys:
-                if first and origin != 'loaded':
-                    objs[o] = E(id=pks[o], **M.fresh(init[o]))
-                    want = 'inserted' if origin == 'flushed' else 'created'
-                else:
-                    objs[o] = E[pks[o]]
-                    want = 'loaded'
-            if first and origin == 'flushed': flush()
-            for o in okeys:
-                if objs[o]._status_ != want:
-                    raise AssertionError('harness: object status %r, expected %r' % (objs[o]._status_, want))
-            if not first:
-                expect = res['snapshots'][st['snap']]
-                st['snap'] += 1
-                compare(objs, expect, 'after the commit at step %d' % st['pos'])
-            env = M.Env([(objs[o], a) for o, a in specs])
+        # explicit enter/exit so that an exception raised by the commit at the end of the session is told apart
+        # from an exception raised by a step
+        db_session.__enter__()
+        try:
+            done = body(first)
+        except BaseException:
+            import sys
+            try: db_session.__exit__(*sys.exc_info())
+            except Exception: pass
+            raise
+        try:
+            db_session.__exit__(None, None, None)
+        except Exception as e:
+            raise violation('the commit at the end of the db_session raised %s: %s' % (type(e).__name__, e))
+        return done
 
-            def statuses():
-                return '/'.join(objs[o]._status_ for o in okeys)
-            while st['pos'] < len(steps):
-                step = steps[st['pos']]
-                st['pos'] += 1
-                do = step['do']
-                if do == 'reload':
-                    trace.append(statuses())
-                    return False
-                before = {o: objs[o]._status_ for o in okeys}
-                acted = 'a' if do == 'touch' else specs[step.get('on', 0)][0]
-                try:
-                    if do == 'flush': flush()
-                    elif do == 'commit': commit()
-                    elif do == 'touch': objs['a'].n = step['n']
-                    else: M.apply_step(step, env)
-                except Exception as e:
-                    trace.append('%s: %s' % (type(e).__name__, e))
-                    if (isinstance(e, TypeError) and 'Cannot store' in str(e) and case['kind'] in M.ARRAY_KINDS
-                            and do == 'l_setslice'):
-                        raise _Abort('rejected', str(e))
-                    raise violation('step %d raised %s: %s (the same step succeeds on the plain copy)'
-                                    % (st['pos'], type(e).__name__, e))
+    def body(first):
+        objs = {}
+        for o in okeys:
+            if first and origin != 'loaded':
+                objs[o] = E(id=pks[o], **M.fresh(init[o]))
+                want = 'inserted' if origin == 'flushed' else 'created'
+            else:
+                objs[o] = E[pks[o]]
+                want = 'loaded'
+        if first and origin == 'flushed': flush()
+        for o in okeys:
+            if objs[o]._status_ != want:
+                raise AssertionError('harness: object status %r, expected %r' % (objs[o]._status_, want))
+        if not first:
+            expect = res['snapshots'][st['snap']]
+            st['snap'] += 1
+            compare(objs, expect, 'after the commit at step %d' % st['pos'])
+        env = M.Env([(objs[o], a) for o, a in specs])
+
+        def statuses():
+            return '/'.join(objs[o]._status_ for o in okeys)
+        while st['pos'] < len(steps):
+            step = steps[st['pos']]
+            st['pos'] += 1
+            do = step['do']
+            if do == 'reload':
                 trace.append(statuses())
-                if do == 'read' and objs[acted]._status_ == 'modified' and before[acted] != 'modified':
-                    raise violation('read step %d changed the status of the object it reads from %r to %r'
-                                    % (st['pos'], before[acted], objs[acted]._status_))
-                if do not in ('flush', 'commit'):
-                    for o in okeys:     # an object whose value is not changed by the step (at most read) must not get marked
-                        if o != acted and objs[o]._status_ == 'modified' and before[o] != 'modified':
-                            raise violation('step %d acts on object %r but changed the status of object %r from %r to %r'
-                                            % (st['pos'], acted, o, before[o], objs[o]._status_))
-            return True
+                return False
+            before = {o: objs[o]._status_ for o in okeys}
+            acted = 'a' if do == 'touch' else specs[step.get('on', 0)][0]
+            try:
+                if do == 'flush': flush()
+                elif do == 'commit': commit()
+                elif do == 'touch': objs['a'].n = step['n']
+                else: M.apply_step(step, env)
+            except Exception as e:
+                trace.append('%s: %s' % (type(e).__name__, e))
+                if (isinstance(e, TypeError) and 'Cannot store' in str(e) and case['kind'] in M.ARRAY_KINDS
+                        and do == 'l_setslice'):
+                    raise _Abort('rejected', str(e))
+                raise violation('step %d raised %s: %s (the same step succeeds on the plain copy)'
+                                % (st['pos'], type(e).__name__, e))
+            trace.append(statuses())
+            if do == 'read' and objs[acted]._status_ == 'modified' and before[acted] != 'modified':
+                raise violation('read step %d changed the status of the object it reads from %r to %r'
+                                % (st['pos'], before[acted], objs[acted]._status_))
+            if do not in ('flush', 'commit'):
+                for o in okeys:     # an object whose value is not changed by the step (at most read) must not get marked
+                    if o != acted and objs[o]._status_ == 'modified' and before[o] != 'modified':
+                        raise violation('step %d acts on object %r but changed the status of object %r from %r to %r'
+                                        % (st['pos'], acted, o, before[o], objs[o]._status_))
+        return True
 
     try:
         first = True
@@ -265,7 +295,7 @@ def run(ctx):
         ctx.check_time()
         evaluate(ctx, case, 'grid')
     ctx.run_test(lambda case: evaluate(ctx, case, 'random'), dict(case=M.strategies()),
-                 max_examples=ctx.scale(1200, 4000), name='programs')
+                 max_examples=ctx.scale(1000, 4000), name='programs')
 
 
 def replay(case):
@@ -299,10 +329,13 @@ MANIFEST = {
             'local names, list/tuple/generator/dict arguments holding containers, aliases, flush/commit/reload in between) '
             'are run on nested Json documents and Int/Str/Float arrays of loaded and freshly created objects and on a plain '
             'deep copy; the value read in a new db_session after commit must equal the copy, and read-only programs must '
-            'not mark the object or emit an UPDATE. A fixed grid is enumerated completely, the rest is sampled by hypothesis; '
+            'not mark the object or emit an UPDATE. Two-slot cases hand containers over between objects/attributes and then '
+            'change them through the receiver or the source; every slot must be written with exactly its own changes and no '
+            'other object may be marked. A fixed grid is enumerated completely, the rest is sampled by hypothesis; '
             'it cannot establish the claim for all programs.',
     'note': 'SQLite only (the tracking code is provider independent, the array/Json converters of other providers are not '
             'exercised). Documents are trees: shared children and re-inserting parts of the document are not generated. '
-            'Three open findings are excluded by root cause (see known_findings.json).',
+            'The three defects this check found (see known_findings.json) carry exclusion predicates that only apply while '
+            'an entry is open; once fixed their witnesses are replayed as plain regression checks.',
     'technique': 'bounded-exhaustive grid + hypothesis program generation against a plain-Python reference copy',
 }
